@@ -223,7 +223,9 @@ def r_numinv(ctx: Ctx, model, tr):
                 cap["solver"] = which
                 cap["x0"] = a[1] if len(a) > 1 else k.get("x0")
                 cap.setdefault("x0s", []).append(cap["x0"])
-                cap["residual"] = I.call_value(fun, [X], {}, n)
+                extra = k.get("args", ())
+                extra = list(extra) if isinstance(extra, (tuple, list)) else [extra]
+                cap["residual"] = I.call_value(fun, [X] + extra, {}, n)
                 ok = I.choose(2, "solver.success") == 0
                 return Obj(kind="OptRes", label="res", attrs={"x": sp.Symbol("res_x", positive=True), "success": ok, "message": "m",
                                                               "fun": sp.Symbol("res_fun", real=True), "status": sp.Integer(1 if ok else 0)})
@@ -349,6 +351,10 @@ def run(ctx: Ctx):
     tr = Translator(model)
     ctx.assume("sympy's simplification is sound (a residual that normalises to 0 is identically 0 on the declared domain)")
     ctx.assume("scipy.optimize results: .success is truthful, .x belongs to the same result")
+    from ..sites import no_dtype_inheriting_storage
+    ctx.rule("M-dtype: no model method stores computed values into an array created with *_like(<its input>) without dtype "
+             "(scalars and arrays alike: integer-typed input must give the same numbers as float input)")
+    no_dtype_inheriting_storage(ctx, model, "C10", "M-dtype", ("pygaps.modelling.",), "computed pressures / loadings")
     lists = r_registry(ctx, model, tr)
     r_branch(ctx, model, tr)      # exact-point counterexamples first: they stand even if a normal form cannot be reached later
     r_inverse(ctx, model, tr)
